@@ -10,7 +10,7 @@ from .edits import Edit, EditCollection, Match
 from .graphtage import BoolNode, BuildOptions, Filetype, FloatNode, KeyValuePairNode, IntegerNode, LeafNode, StringNode
 from .printer import Printer
 from .sequences import SequenceFormatter, SequenceNode
-from .tree import ContainerNode, GraphtageFormatter, TreeNode
+from .tree import ContainerNode, EditedTreeNode, GraphtageFormatter, TreeNode
 
 
 class PLISTNode(ContainerNode):
@@ -82,9 +82,11 @@ class PLISTSequenceFormatter(SequenceFormatter):
 
     def print_KeyValuePairNode(self, printer: Printer, node: KeyValuePairNode):
         printer.write("<key>")
-        if isinstance(node.key, StringNode):
+        key_is_edited = isinstance(node.key, EditedTreeNode) and any(e.has_non_zero_cost() for e in node.key.edit_list)
+        if isinstance(node.key, StringNode) and not key_is_edited:
             printer.write(node.key.object)
         else:
+            # this also prints the edit of a key that was changed
             self.print(printer, node.key)
         printer.write("</key>")
         printer.newline()
